@@ -199,7 +199,7 @@ def run(ctx):
             # pool of 0..8 transactions with assorted fees
             want = rng.choice([0, 0, 1, 2, 3, 5, 8])
             in_pool = {i.output_reference for t in cm.transaction_pool for i in t.inputs}
-            sp = [(r, o) for r, o in utxo.items() if o.public_key.public_key in keys.pks and r not in in_pool]
+            sp = [(r, o) for r, o in utxo.items() if o.public_key.public_key in keys.pks and r not in in_pool and o.value > 0]
             rng.shuffle(sp)
             for r, o in sp[:max(0, want - len(cm.transaction_pool))]:
                 fee = min(rng.choice([0, 1, 7, 1000, 123456]), o.value - 1)
